@@ -136,6 +136,28 @@ def gen_restricted(rng):
     return ("un", o, mp.DEFAULT, p)
 
 
+def gen_recreated_after_transfer(rng):
+    """Downstream of a transfer into the SQL engine (so that a Processor has to rebuild the tree): a projection hides a
+    column and a calculation re-creates a column of that name; with and without a sort / slice / deduplication around."""
+    a, b, c = K(1), K(2), K(3)
+    src = rng.choice([("it", 0), ("it", 1)])
+    leaf = ("leaf", 1, src, [a, b, c], [{a: i, b: 10 * i, c: 100 * i} for i in rng.sample([1, 2, 3, 4], rng.choice([2, 3]))], (0, None))
+    p = ("xfer", sp.SQL, leaf)
+    if rng.random() < 0.3:
+        p = ("un", ("sel", ("cmp", "ge", ("ref", a), ("lit", 1))), mp.DEFAULT, p)
+    if rng.random() < 0.3:
+        p = ("un", ("sort", [(("ref", rng.choice([a, b, c])), True)]), mp.DEFAULT, p)
+    p = ("un", ("proj", [a, b]), mp.DEFAULT, p)
+    if rng.random() < 0.2:
+        p = ("un", ("dedup",), mp.DEFAULT, p)
+    p = ("un", ("calc", c if rng.random() < 0.8 else K(4), ("add", ("ref", a), ("ref", b))), mp.DEFAULT, p)
+    if rng.random() < 0.3:
+        p = ("un", ("slice", 0, 2), mp.DEFAULT, p)
+    if rng.random() < 0.3:
+        p = ("xfer", src, p)
+    return p
+
+
 def run_mp(p):
     w, rel, res = mp.run_build(p)
     if rel is None:
@@ -194,6 +216,14 @@ def run(ctx):
         if i < len(corpus):
             p = corpus[i]
             out = run_sql(p)
+            prog_json, key = jsonable(p), mp.cprog(p)
+        elif i % 10 == 3:
+            p = sp.self_join(rng)
+            out = run_sql(p)
+            prog_json, key = jsonable(p), mp.cprog(p)
+        elif i % 10 == 9 and i % 4 == 1:
+            p = gen_recreated_after_transfer(rng)
+            out = run_mp(p)
             prog_json, key = jsonable(p), mp.cprog(p)
         elif i % 10 == 7:
             p = gen_restricted(rng)
